@@ -7,6 +7,7 @@ package dcons
 // ended how) and everything the consumer returns are recorded and validated by TLC against spec/FetchTrace.tla.
 
 import (
+	"sync/atomic"
 	"context"
 	"encoding/json"
 	"errors"
@@ -63,8 +64,22 @@ func gen(seed int64, tier string) Scenario {
 	if r.Intn(3) == 0 {
 		ladderAt = r.Intn(n)
 	}
+	holdAt := -1
+	if r.Intn(3) == 0 {
+		holdAt = r.Intn(n)
+	}
 	for i := 0; i < n; i++ {
 		tp := func() (string, int32) { return topics[r.Intn(2)], int32(r.Intn(2)) }
+		if i == holdAt {
+			// a fetch response with records is held while it is being decoded; meanwhile the partition's leader moves and the
+			// client learns about it (its consumer session stops under the half-processed fetch)
+			t, p := tp()
+			sc.Steps = append(sc.Steps,
+				Step{Op: "produce", P: 0, Topic: t, Part: p, N: 3}, Step{Op: "sleep", Ms: 80}, Step{Op: "poll", N: 0},
+				Step{Op: "fault", Fault: "holdfetch", Ms: 200}, Step{Op: "produce", P: 0, Topic: t, Part: p, N: 4}, Step{Op: "sleep", Ms: []int{30, 60, 100}[r.Intn(3)]},
+				Step{Op: "fault", Fault: "moveleader", Topic: t, Part: p}, Step{Op: "refresh"}, Step{Op: "sleep", Ms: 300},
+				Step{Op: "poll", N: 0}, Step{Op: "sleep", Ms: 100}, Step{Op: "poll", N: 0})
+		}
 		if i == ladderAt {
 			// epoch ladder: everything consumed in one leader epoch, the leader moves, records of the next epoch are buffered and
 			// only partly taken, then the leader moves again while the rest is still buffered
@@ -110,7 +125,18 @@ func idOf(r *kgo.Record) int {
 	return id
 }
 
-type hooks struct{ rec *sim.Recorder }
+type hooks struct {
+	rec  *sim.Recorder
+	hold atomic.Int64 // armed by the "holdfetch" fault: the next batch read out of a fetch response is held this long (ns)
+}
+
+// OnFetchBatchRead runs while a fetch response is being decoded, before it is buffered: holding it here opens the window in
+// which a leader move and a metadata refresh stop the consumer session under a fetch that is half way through.
+func (h *hooks) OnFetchBatchRead(_ kgo.BrokerMetadata, _ string, _ int32, _ kgo.FetchBatchMetrics) {
+	if d := h.hold.Swap(0); d > 0 {
+		time.Sleep(time.Duration(d))
+	}
+}
 
 func (h *hooks) OnFetchRecordBuffered(r *kgo.Record) {
 	h.rec.Ev("fetch_buffered", "id", idOf(r), "topic", r.Topic, "part", r.Partition, "offset", r.Offset)
@@ -197,7 +223,8 @@ func runScenario(t *testing.T, rec *sim.Recorder, sc Scenario) {
 			}
 			defer prod[i].Close()
 		}
-		copts := append([]kgo.Opt{kgo.WithHooks(&hooks{rec}), kgo.FetchMaxWait(50 * time.Millisecond), kgo.KeepControlRecords(), kgo.DisableFetchSessions()}[:2], base...)
+		hk := &hooks{rec: rec}
+		copts := append([]kgo.Opt{kgo.WithHooks(hk), kgo.FetchMaxWait(50 * time.Millisecond), kgo.KeepControlRecords(), kgo.DisableFetchSessions()}[:2], base...)
 		if sc.RC {
 			copts = append(copts, kgo.FetchIsolationLevel(kgo.ReadCommitted()))
 		} else {
@@ -356,6 +383,8 @@ func runScenario(t *testing.T, rec *sim.Recorder, sc Scenario) {
 						to = 1
 					}
 					c.MoveTopicPartition(st.Topic, st.Part, to)
+				case "holdfetch":
+					hk.hold.Store(int64(time.Duration(st.Ms) * time.Millisecond))
 				case "stall":
 					chaos.StallNext(int16(kmsg.Fetch), 1, time.Duration(st.Ms)*time.Millisecond)
 				}
